@@ -1,10 +1,10 @@
 SPECIFICATION Spec
 CONSTANTS
   Clients <- MC2Clients
-  Reqs <- MC2ReqsB
+  Reqs <- MC2Reqs
   Bg = "none"
-  Pool <- NoPool
-  Handoff = TRUE
+  Pool <- MCPool1
+  Handoff = FALSE
 INVARIANT RecvMutex
 INVARIANT CondMutex
 INVARIANT DispatchedOnce
